@@ -93,6 +93,14 @@ func jobScenario(r *core.Run, prop string) []*core.Violation {
 			cfg.MevVals[i] = true
 		}
 	}
+	cfg.MevOnlyOn = map[int]string{}
+	if len(cfg.Chains) > 1 {
+		for i := 0; i < cfg.NVals; i++ {
+			if cfg.MevVals[i] && t.Draw(2) == 1 {
+				cfg.MevOnlyOn[i] = cfg.Chains[t.Intn(len(cfg.Chains))].RefID
+			}
+		}
+	}
 	cfg.FeeMultiplier = map[int]string{}
 	for i := 0; i < cfg.NVals; i++ {
 		cfg.FeeMultiplier[i] = []string{"1.1", "1.0", "1.337", "0.5", "2", "1.000000000000000001", "3.999999999999999999"}[t.Intn(7)]
@@ -213,6 +221,9 @@ func jobScenario(r *core.Run, prop string) []*core.Violation {
 		}
 		if prop == "C09" {
 			w.hostileInputs(byz)
+		}
+		if prop == "C04" && t.Chance(1, 4) {
+			w.reAttest(t.Intn(cfg.NVals))
 		}
 		if prop == "C06" {
 			for _, vi := range sortedInts(byz) {
